@@ -38,6 +38,25 @@ type lie struct {
 	f    func(res interface{}) bool
 }
 
+// shape lies: every list-valued part of an answer also gets a nil / zero-value entry INSERTED in front, in the
+// middle and at the end, all genuine elements kept in order (the list's length and the attribution of element i
+// are part of what the header commits to).
+var shapePositions = []string{"front", "middle", "end"}
+
+func insertAt[T any](s []T, pos string, v T) []T {
+	i := 0
+	switch pos {
+	case "middle":
+		i = len(s) / 2
+	case "end":
+		i = len(s)
+	}
+	out := make([]T, 0, len(s)+1)
+	out = append(out, s[:i]...)
+	out = append(out, v)
+	return append(out, s[i:]...)
+}
+
 func flip(b []byte) []byte {
 	if len(b) == 0 {
 		return bytes.Repeat([]byte{0x5a}, 32)
@@ -304,6 +323,35 @@ func (w *world) blockLies(t *rapid.T, h int64) []lie {
 			b.LastCommit.Signatures[i].ValidatorAddress = flip(b.LastCommit.Signatures[i].ValidatorAddress)
 			return true
 		}},
+		{"txs.insert-empty@front", func(b *types.Block) bool { b.Data.Txs = insertAt(b.Data.Txs, "front", types.Tx{}); return true }},
+		{"txs.insert-empty@middle", func(b *types.Block) bool {
+			if len(b.Data.Txs) < 2 {
+				return false
+			}
+			b.Data.Txs = insertAt(b.Data.Txs, "middle", types.Tx{})
+			return true
+		}},
+		{"txs.insert-empty@end", func(b *types.Block) bool {
+			if len(b.Data.Txs) == 0 {
+				return false
+			}
+			b.Data.Txs = insertAt(b.Data.Txs, "end", types.Tx{})
+			return true
+		}},
+		{"last_commit.sig.insert-absent@front", func(b *types.Block) bool {
+			if b.LastCommit == nil || len(b.LastCommit.Signatures) == 0 {
+				return false
+			}
+			b.LastCommit.Signatures = insertAt(b.LastCommit.Signatures, "front", types.NewCommitSigAbsent())
+			return true
+		}},
+		{"last_commit.sig.insert-absent@end", func(b *types.Block) bool {
+			if b.LastCommit == nil || len(b.LastCommit.Signatures) == 0 {
+				return false
+			}
+			b.LastCommit.Signatures = insertAt(b.LastCommit.Signatures, "end", types.NewCommitSigAbsent())
+			return true
+		}},
 		{"last_commit.sig.drop", func(b *types.Block) bool {
 			if b.LastCommit == nil || len(b.LastCommit.Signatures) < 2 {
 				return false
@@ -453,7 +501,7 @@ func (w *world) resultsLies(t *rapid.T, h int64) []lie {
 	}
 	has := func(r *ctypes.ResultBlockResults) bool { return len(r.TxsResults) > 0 }
 	pk, _ := cryptoenc.PubKeyToProto(lib.Key(40).PubKey())
-	return []lie{
+	lies := []lie{
 		on("height+1", func(r *ctypes.ResultBlockResults) bool { r.Height++; return true }),
 		on("height.other", func(r *ctypes.ResultBlockResults) bool { r.Height = other; return other != h }),
 		on("result.code", func(r *ctypes.ResultBlockResults) bool {
@@ -605,6 +653,31 @@ func (w *world) resultsLies(t *rapid.T, h int64) []lie {
 			return true
 		}),
 	}
+	for _, pos := range shapePositions {
+		pos := pos
+		lies = append(lies,
+			on("results.insert-nil@"+pos, func(r *ctypes.ResultBlockResults) bool {
+				if pos != "front" && (len(r.TxsResults) == 0 || (pos == "middle" && len(r.TxsResults) < 2)) {
+					return false // same response as @front
+				}
+				r.TxsResults = insertAt(r.TxsResults, pos, nil)
+				return true
+			}),
+			on("results.insert-zero@"+pos, func(r *ctypes.ResultBlockResults) bool {
+				if pos != "front" && (len(r.TxsResults) == 0 || (pos == "middle" && len(r.TxsResults) < 2)) {
+					return false
+				}
+				r.TxsResults = insertAt(r.TxsResults, pos, &abci.ResponseDeliverTx{})
+				return true
+			}))
+	}
+	lies = append(lies, on("results.insert-nil@everywhere", func(r *ctypes.ResultBlockResults) bool {
+		for _, pos := range shapePositions {
+			r.TxsResults = insertAt(r.TxsResults, pos, nil)
+		}
+		return true
+	}))
+	return lies
 }
 
 func (r *lieRun) blockResults() {
@@ -729,6 +802,17 @@ func (w *world) txLies(t *rapid.T, tr txRef, label string) []lie {
 				return false
 			}
 			r.Proof.Proof.Aunts = r.Proof.Proof.Aunts[1:]
+			return true
+		}),
+		on("proof.aunt.insert-empty@front", func(r *ctypes.ResultTx) bool {
+			r.Proof.Proof.Aunts = insertAt(r.Proof.Proof.Aunts, "front", nil)
+			return true
+		}),
+		on("proof.aunt.insert-empty@end", func(r *ctypes.ResultTx) bool {
+			if len(r.Proof.Proof.Aunts) == 0 {
+				return false
+			}
+			r.Proof.Proof.Aunts = insertAt(r.Proof.Proof.Aunts, "end", nil)
 			return true
 		}),
 		on("proof.aunt.add", func(r *ctypes.ResultTx) bool {
@@ -859,6 +943,34 @@ func (r *lieRun) txs() {
 			return true
 		}},
 		lie{"list.nil-element", func(res interface{}) bool { res.(*ctypes.ResultTxSearch).Txs[j] = nil; return true }},
+		lie{"list.insert-nil@front", func(res interface{}) bool {
+			rs := res.(*ctypes.ResultTxSearch)
+			rs.Txs = insertAt(rs.Txs, "front", nil)
+			return true
+		}},
+		lie{"list.insert-nil@middle", func(res interface{}) bool {
+			rs := res.(*ctypes.ResultTxSearch)
+			if len(rs.Txs) < 2 {
+				return false
+			}
+			rs.Txs = insertAt(rs.Txs, "middle", nil)
+			return true
+		}},
+		lie{"list.insert-nil@end", func(res interface{}) bool {
+			rs := res.(*ctypes.ResultTxSearch)
+			rs.Txs = insertAt(rs.Txs, "end", nil)
+			return true
+		}},
+		lie{"list.insert-zero@front", func(res interface{}) bool {
+			rs := res.(*ctypes.ResultTxSearch)
+			rs.Txs = insertAt(rs.Txs, "front", &ctypes.ResultTx{})
+			return true
+		}},
+		lie{"list.insert-zero@end", func(res interface{}) bool {
+			rs := res.(*ctypes.ResultTxSearch)
+			rs.Txs = insertAt(rs.Txs, "end", &ctypes.ResultTx{})
+			return true
+		}},
 		lie{"total_count(free)", func(res interface{}) bool { res.(*ctypes.ResultTxSearch).TotalCount++; return true }},
 	)
 	cs := w.drawVerifier(t, r.liar, "txsearch.v")
@@ -1022,6 +1134,18 @@ func (r *lieRun) queries() {
 		on("proof.drop-outer", func(p *abci.ResponseQuery) bool { p.ProofOps.Ops = p.ProofOps.Ops[:1]; return true }),
 		on("proof.swap", func(p *abci.ResponseQuery) bool {
 			p.ProofOps.Ops[0], p.ProofOps.Ops[1] = p.ProofOps.Ops[1], p.ProofOps.Ops[0]
+			return true
+		}),
+		on("proof.insert-zero-op@front", func(p *abci.ResponseQuery) bool {
+			p.ProofOps.Ops = insertAt(p.ProofOps.Ops, "front", tmcrypto.ProofOp{})
+			return true
+		}),
+		on("proof.insert-zero-op@middle", func(p *abci.ResponseQuery) bool {
+			p.ProofOps.Ops = insertAt(p.ProofOps.Ops, "middle", tmcrypto.ProofOp{})
+			return true
+		}),
+		on("proof.insert-zero-op@end", func(p *abci.ResponseQuery) bool {
+			p.ProofOps.Ops = insertAt(p.ProofOps.Ops, "end", tmcrypto.ProofOp{})
 			return true
 		}),
 		on("proof.extra-op", func(p *abci.ResponseQuery) bool { p.ProofOps.Ops = append(p.ProofOps.Ops, p.ProofOps.Ops[1]); return true }),
@@ -1195,6 +1319,34 @@ func (r *lieRun) chainInfo() {
 			return true
 		}},
 		lie{"metas.nil", func(res interface{}) bool { res.(*ctypes.ResultBlockchainInfo).BlockMetas[j] = nil; return true }},
+		lie{"metas.insert-nil@front", func(res interface{}) bool {
+			ri := res.(*ctypes.ResultBlockchainInfo)
+			ri.BlockMetas = insertAt(ri.BlockMetas, "front", nil)
+			return true
+		}},
+		lie{"metas.insert-nil@middle", func(res interface{}) bool {
+			ri := res.(*ctypes.ResultBlockchainInfo)
+			if len(ri.BlockMetas) < 2 {
+				return false
+			}
+			ri.BlockMetas = insertAt(ri.BlockMetas, "middle", nil)
+			return true
+		}},
+		lie{"metas.insert-nil@end", func(res interface{}) bool {
+			ri := res.(*ctypes.ResultBlockchainInfo)
+			ri.BlockMetas = insertAt(ri.BlockMetas, "end", nil)
+			return true
+		}},
+		lie{"metas.insert-zero@front", func(res interface{}) bool {
+			ri := res.(*ctypes.ResultBlockchainInfo)
+			ri.BlockMetas = insertAt(ri.BlockMetas, "front", &types.BlockMeta{})
+			return true
+		}},
+		lie{"metas.insert-zero@end", func(res interface{}) bool {
+			ri := res.(*ctypes.ResultBlockchainInfo)
+			ri.BlockMetas = insertAt(ri.BlockMetas, "end", &types.BlockMeta{})
+			return true
+		}},
 		lie{"metas.substitute.other-height", func(res interface{}) bool {
 			ri := res.(*ctypes.ResultBlockchainInfo)
 			m := w.chain.BlockStore.LoadBlockMeta(outside)
@@ -1263,6 +1415,16 @@ func (r *lieRun) commitAndValidators() {
 	}
 	for _, l := range []lie{
 		{"validator.power", func(res interface{}) bool { res.(*ctypes.ResultValidators).Validators[0].VotingPower++; return true }},
+		{"validators.insert-nil@front", func(res interface{}) bool {
+			rv := res.(*ctypes.ResultValidators)
+			rv.Validators = insertAt(rv.Validators, "front", nil)
+			return true
+		}},
+		{"validators.insert-nil@end", func(res interface{}) bool {
+			rv := res.(*ctypes.ResultValidators)
+			rv.Validators = insertAt(rv.Validators, "end", nil)
+			return true
+		}},
 		{"validators.drop", func(res interface{}) bool {
 			rv := res.(*ctypes.ResultValidators)
 			rv.Validators = rv.Validators[1:]
